@@ -36,7 +36,13 @@ def make_world(g, tag):
             break
         gp, fp, v = r.choice(cand)
         k = r.random()
-        if k < 0.55:
+        if k < 0.15:
+            # several paths, the leading ones absent and ignored: the present one is still replaced,
+            # and the caller's bytes stay untouched
+            ph = r.choice(docs.PLACEHOLDERS)
+            steps.append((docs.any_matcher(['not.there', 'nor.this', gp], ph, False), fp, json.loads(ph), False))
+            set_path(cur, fp, json.loads(ph))
+        elif k < 0.55:
             ph = r.choice(docs.PLACEHOLDERS)
             steps.append((docs.any_matcher([gp], ph), fp, json.loads(ph), False))
             set_path(cur, fp, json.loads(ph))
